@@ -200,3 +200,82 @@ theorem lex_slices (text : Bytes) (r : Result) (h : lex text = some r) : ∀ tok
   scan_slices text _ text 0 [] r (by simp) (by omega) (by intro tok ht; simp at ht) h
 
 end Lex
+
+namespace Lex
+
+/-- `text` is the tokens in order, with nothing but white space before, between and after them -/
+inductive Weave : List Tok → Bytes → Prop
+  | nil (ws : Bytes) (h : ∀ c ∈ ws, B.isWs c = true) : Weave [] ws
+  | cons (ws : Bytes) (h : ∀ c ∈ ws, B.isWs c = true) (tok : Tok) (toks : List Tok) (rest : Bytes)
+      (hr : Weave toks rest) : Weave (tok :: toks) (ws ++ tok.text ++ rest)
+
+theorem Weave.prepend {toks : List Tok} {x : Bytes} (h : Weave toks x) (w : Bytes) (hw : ∀ c ∈ w, B.isWs c = true) :
+    Weave toks (w ++ x) := by
+  cases h with
+  | nil ws hws =>
+    apply Weave.nil
+    intro c hc
+    simp only [List.mem_append] at hc
+    rcases hc with hc | hc
+    · exact hw c hc
+    · exact hws c hc
+  | cons ws hws tok toks rest hr =>
+    have : w ++ (ws ++ tok.text ++ rest) = (w ++ ws) ++ tok.text ++ rest := by simp [List.append_assoc]
+    rw [this]
+    apply Weave.cons _ _ tok toks rest hr
+    intro c hc
+    simp only [List.mem_append] at hc
+    rcases hc with hc | hc
+    · exact hw c hc
+    · exact hws c hc
+
+theorem take_spanLen_all (p : UInt8 → Bool) (t : Bytes) : ∀ c ∈ t.take (spanLen p t), p c = true := by
+  induction t with
+  | nil => intro c hc; simp [spanLen] at hc
+  | cons x xs ih =>
+    intro c hc
+    by_cases hx : p x = true
+    · simp only [spanLen, hx, if_true, List.take_succ_cons, List.mem_cons] at hc
+      rcases hc with rfl | hc
+      · exact hx
+      · exact ih c hc
+    · simp [spanLen, hx] at hc
+
+theorem scan_weave : ∀ (fuel : Nat) (t : Bytes) (pos : Nat) (acc : List Tok) (r : Result),
+    scan fuel t pos acc = some r → r.err = none → ∃ suffix, r.toks = acc.reverse ++ suffix ∧ Weave suffix t := by
+  intro fuel
+  induction fuel with
+  | zero => intro t pos acc r h; simp [scan] at h
+  | succ fuel ih =>
+    intro t pos acc r h herr
+    unfold scan at h
+    match t with
+    | [] =>
+      simp only [Option.some.injEq] at h
+      subst h
+      exact ⟨[], by simp, Weave.nil [] (by intro c hc; simp at hc)⟩
+    | c :: cs =>
+      simp only at h
+      split at h
+      · obtain ⟨suffix, h1, h2⟩ := ih _ _ acc r h herr
+        refine ⟨suffix, h1, ?_⟩
+        have := h2.prepend ((c :: cs).take (spanLen B.isWs (c :: cs))) (take_spanLen_all B.isWs (c :: cs))
+        rwa [List.take_append_drop] at this
+      · split at h
+        · simp only [Option.some.injEq] at h
+          subst h
+          simp at herr
+        · rename_i k n hone
+          obtain ⟨suffix, h1, h2⟩ := ih _ _ _ r h herr
+          refine ⟨⟨k, pos, (c :: cs).take n⟩ :: suffix, by simpa using h1, ?_⟩
+          have := Weave.cons [] (by intro x hx; simp at hx) ⟨k, pos, (c :: cs).take n⟩ suffix _ h2
+          simpa [List.take_append_drop] using this
+
+/-- a script that lexes without error is its tokens (comments included) woven with white space: the lexer drops
+    nothing but white space -/
+theorem lex_weave (text : Bytes) (r : Result) (h : lex text = some r) (herr : r.err = none) : Weave r.toks text := by
+  obtain ⟨suffix, h1, h2⟩ := scan_weave _ _ _ _ r h herr
+  simp at h1
+  rw [h1]; exact h2
+
+end Lex
